@@ -167,6 +167,9 @@ class Monitor:
         self.structural = [
             c for c in self.codes if os.path.basename(c.co_filename) in STRUCTURAL_FILES
         ]
+        # functions that read or write a module-level memo table (found by name)
+        tnames = {name for _owner, name, _t in module_dicts()}
+        self.table_codes = [c for c in self.codes if tnames & set(c.co_names)]
         self.armed = []
         self.count = 0
         self.target = None
@@ -225,7 +228,7 @@ class Monitor:
 
     # -- arming ----------------------------------------------------------
     def _arm(self, mode, events):
-        codes = self.structural if mode == "structural" else self.codes
+        codes = {"structural": self.structural, "tables": self.table_codes}.get(mode, self.codes)
         for c in codes:
             MON.set_local_events(self.tool, c, events)
         self.armed = codes
